@@ -40,6 +40,12 @@ TB == <<
   << "local", "function", "h", "(", "p", ")", "return", "p", ",", "@", "end" >>,
   << "function", "G", "(", ")", "return", "@", "end" >>,
   << "m", "(", "x", ":", "up", "(", "@", ")", ",", "math", ".", "sqrt", "(", "n", ")", ")" >>,
+  \* argument lists that rules extend or shorten (remove_method_call inserts the receiver, remove_assertions keeps the
+  \* arguments): several markers, so that a separator written on another line than in the source moves a neighbour
+  << "x", ":", "up", "(", "@", ",", "@", ",", "@", ")" >>,
+  << "m", "(", "s", ":", "rep", "(", "@", ",", "@", ")", ",", "@", ")" >>,
+  << "assert", "(", "@", ",", "@", ",", "m", "(", "@", ")", ")" >>,
+  << "debug", ".", "profilebegin", "(", "m", "(", "@", ")", ",", "@", ")" >>,
   << "return", "y", ",", "s", ",", "h", "(", "@", ")" >> >>
 Templates == << TA, TB >>
 
